@@ -122,7 +122,7 @@ func judgeC04(c *C04Case, cx *Ctx) *Violation {
 		tr := c2.NewPolyTree64()
 		op := c2.PathsD{}
 		if !e.ExecutePolyTree64(c.CT, c.FR, tr, &op) {
-			c2.VerifStopRecording()
+			stopRecording()
 			return violf("ExecutePolyTree64 returned false")
 		}
 		root = tr.PolyPathBase
@@ -146,7 +146,7 @@ func judgeC04(c *C04Case, cx *Ctx) *Violation {
 			tr := c2.NewPolyTreeD()
 			op := c2.PathsD{}
 			if !e.ExecutePolyTreeD(c.CT, c.FR, tr, &op) {
-				c2.VerifStopRecording()
+				stopRecording()
 				return violf("ExecutePolyTreeD returned false")
 			}
 			root = tr.PolyPathBase
@@ -157,7 +157,7 @@ func judgeC04(c *C04Case, cx *Ctx) *Violation {
 			clip = c2.ScalePathsDToPaths64(cd, div)
 		}
 	}
-	evs := c2.VerifStopRecording()
+	evs := stopRecording()
 	flat = c2.BooleanOpPaths64(c.CT, subj, clip, c.FR)
 	if scaleWant != 0 && root.Scale() != scaleWant {
 		return violf("PolyTreeD root Scale() = %v, expected 10^%d", root.Scale(), c.Prec)
